@@ -23,6 +23,10 @@ LOCAL_KNOWN = [
      'signature': 'reported pu N of thread N differs from bound pu N (mode numa-balanced'},
     {'id': 'numa-balanced-rounding-leaves-thread-unbound',
      'signature': 'thread N has an empty mask (mode numa-balanced'},
+    {'id': 'numa-balanced-asymmetric-cores-never-returns',
+     'signature': 'does not terminate (mode numa-balanced'},
+    {'id': 'numa-balanced-asymmetric-cores-share-pu',
+     'signature': 'share pu N (mode numa-balanced'},
     {'id': 'max-cores-compact-oversubscribes',
      'signature': 'share pu N (mode compact, process mask ignored, max_cores below thread count'},
     {'id': 'max-cores-scatter-never-returns',
@@ -53,6 +57,32 @@ def topo_variants(tr):
     for P, U in [(2, 4), (1, 3), (3, 2)]:
         extra.append((f'pack:{P} pu:{U}', '/'.join(['.'.join(['1'] * U)] * P)))  # no core objects: PUs as cores
     return out, extra
+
+
+def asym_variants(rng, count):
+    """asymmetric machines: a symmetric shape with PUs (and the cores / packages they empty) removed;
+    realised as an hwloc XML file by harness/e0/mkxml.c.  synth = asym:P:C:U:keepbits"""
+    out = []
+    while len(out) < count:
+        P, C, U = 1 + rng.below(3), 1 + rng.below(4), 1 + rng.below(4)
+        N = P * C * U
+        if N < 2:
+            continue
+        keep = [1 if rng.below(4) != 0 else 0 for _ in range(N)]
+        if sum(keep) == 0 or sum(keep) == N:
+            continue
+        socks = []
+        for p in range(P):
+            cores = []
+            for c in range(C):
+                u = sum(keep[(p * C + c) * U:(p * C + c + 1) * U])
+                if u:
+                    cores.append(u)
+            if cores:
+                socks.append(cores)
+        model = '/'.join('.'.join(map(str, cs)) for cs in socks)
+        out.append((f"asym:{P}:{C}:{U}:{''.join(map(str, keep))}", model))
+    return out
 
 
 def model_shape(model):
@@ -137,8 +167,13 @@ def run_topology(hbin, synth, cases, tag):
         f.write('\n'.join(cases) + '\n')
     env = dict(os.environ)
     env.pop('HWLOC_XMLFILE', None)
-    if synth.startswith('xml:'):
-        env['HWLOC_XMLFILE'] = synth[4:]
+    if synth.startswith('asym:'):
+        _, P, C, U, keep = synth.split(':')
+        xml = os.path.join(work, f'{tag}.xml')
+        mk = subprocess.run([os.path.join(BIN, 'e0_mkxml'), P, C, U, keep, xml], capture_output=True, text=True)
+        if mk.returncode != 0:
+            return [{'id': c.split()[1], 'synth': synth, 'case': c, 'raw': '', 'verdict': f'case {c.split()[1]} reject 0 [mkxml failed: {mk.stderr[:100]}]', 'err': mk.stderr} for c in cases]
+        env['HWLOC_XMLFILE'] = xml
         env.pop('HWLOC_SYNTHETIC', None)
     else:
         env['HWLOC_SYNTHETIC'] = synth
@@ -215,6 +250,10 @@ def main():
     ok_h, hbin, hlog = (False, '', '')
     if ok_p:
         ok_h, hbin, hlog = compile_harness('e0_affinity', 'e0/affinity.cpp', 'hooks')
+    if ok_p and ok_h:
+        mk = sh(f'gcc -O1 {os.path.join(HERE, "harness", "e0", "mkxml.c")} -lhwloc -o {os.path.join(BIN, "e0_mkxml")}')
+        if mk.returncode != 0:
+            ok_h, hlog = False, mk.stderr[-2000:]
     if not (ok_p and ok_h):
         p = write_replay(PROP, f'build-failure-{base_seed}.txt', (plog if not ok_p else hlog))
         write_evidence(PROP, tr, base_seed, {'obligations': audit['obligations'], 'discharged': audit['discharged'],
@@ -256,6 +295,7 @@ def main():
             ex = list(extra_t)
             for _ in range(10):
                 chosen.append(ex.pop(rng.below(len(ex))))
+        chosen += asym_variants(rng, 150 if tr == 'thorough' else 12)
         budget_div = [40 if tr == 'thorough' else 6]
         for ti, (synth, model) in enumerate(chosen):
             jobs.append((synth, gen_cases(rng, synth, model, tr, f's{base_seed}g{ti}', budget_div), f'g{ti}'))
